@@ -177,6 +177,30 @@ def gen_description(rng, force=None, hostile=True):
     variants = []
     while budget[0] > 0:
         variants.append(gen_variant(rng, None, used, 1, budget, hostile=hostile))
+    if force == "many-variants" or (force is None and rng.random() < 0.06):
+        # ten and more siblings with numbered ids: 'V10' sorts before 'V9' as text, '10' before '9'
+        stem = rng.choice(["V", "", "Layer", "v0"])
+        ids = ["%s%d" % (stem, k) for k in range(1, rng.randint(10, 14))]
+        rng.shuffle(ids)
+        host = None
+        if rng.random() < 0.5 and variants:
+            host = variants[0]             # ... as children of one variant
+        for vid in ids:
+            if host is None and (vid in used or vid in [n["uid"] for n in iter_nodes(variants)]):
+                continue
+            if host is not None and (vid in [c["id"] for c in host["children"]] or
+                                     "%s-%s" % (host["uid"], vid) in [n["uid"] for n in iter_nodes(variants)]):
+                continue
+            arches = sorted(rng.sample(host["arches"], rng.randint(1, len(host["arches"])))) if host else \
+                sorted(rng.sample(ARCH_POOL, rng.randint(1, 3)))
+            node = {"id": vid, "uid": vid if host is None else "%s-%s" % (host["uid"], vid), "name": text.pretty_name(rng, hostile=hostile),
+                    "type": "variant" if host is None else rng.choice(["addon", "optional"]), "arches": arches,
+                    "paths": gen_paths(rng, arches), "release": None, "children": []}
+            if host is None:
+                used.add(vid)
+                variants.append(node)
+            else:
+                host["children"].append(node)
     if force == "depth-3":
         # make sure a chain of depth 3 exists
         top = variants[0]
@@ -270,6 +294,8 @@ def classes_of(D):
     if comp["id"] == "<create>":
         out.append("id-created")
     nodes = list(iter_nodes(D["variants"]))
+    if len(D["variants"]) >= 10 or any(len(n["children"]) >= 10 for n in nodes):
+        out.append("many-variants")
     if not nodes:
         out.append("no-variants")
     d = depth_of(D["variants"])
